@@ -80,4 +80,9 @@ theorem tie_updaters :
        "CPUSharesName <- NewCgroupUpdaterWithUpdateFunc(CgroupUpdateCPUSharesFunc)",
        "MemoryLimitName <- NewCgroupUpdaterWithUpdateFunc(CgroupUpdateWithUnlimitedFunc)"] := by rfl
 
+/-- the rule is read and written under its lock only (the model's `Rule.step` / `Rule.effective` are atomic steps). -/
+theorem tie_rule_locks :
+    C14.ruleLocks = ["GetCFSQuotaScaleRatio RLock RUnlock", "UpdateCFSQuotaEnabled Lock Unlock",
+                     "UpdateCPUNormalizationRatio Lock Unlock"] := by decide
+
 end KoordVerif.C14
